@@ -1,32 +1,23 @@
--- GENERATED by /verif/harness/tr/<id> (verifharness/tlib) from the current /repo working tree — do not edit
-namespace IpcHub.Gen
-/-- provider/auth/path_matcher.go: does `pathScanner` trim blanks off every path token? -/
-def pathScannerTrims : Bool := false
-def pathScannerDelim : String := "/"
-def sectionWildcard : String := "+"
-def endWildcard : String := "*"
+/-
+The reviewed shape of the Go functions that Model/PathMatch.lean mirrors, statement by statement
+(provider/auth/path_matcher.go, provider/auth/user.go, utils/scan/scanner.go), as rendered by the
+translator harness/tr/c16 (`skeleton`).  Props/C16.lean `c16_source_facts` demands that the
+skeletons regenerated from the current source (Gen/AuthFacts.lean) equal these: any edit of one of
+these functions other than comments/layout breaks the obligation, and the check then searches for
+an input on which the implementation leaves the documented language.
+-/
+namespace IpcHub.PathMatch.Expected
+
 def semicolonScanner : String := "NewScanner(';',unicode.IsSpace)"
-/-- NewPathMatcher func(pathMask string) PathMatcher -/
 def pmSkel_NewPathMatcher : List String := ["if strings.TrimSpace(pathMask) == endWildcard", "return alwaysMatcher{}", "end", "parts := strings.Split(strings.ToLower(strings.Trim(pathMask, \"/\")), \"/\")", "wildcard := parts[len(parts)-1] == endWildcard", "if wildcard", "parts = parts[0 : len(parts)-1]", "end", "return &pathMacher{parts: parts, wildcardEnd: wildcard}", "end"]
-/-- Match func(path string) bool -/
 def pmSkel_Match : List String := ["path = strings.ToLower(strings.Trim(path, \"/\"))", "count := partCount(path) + 1", "if count < len(m.parts)", "return false", "end", "if count > len(m.parts) && !m.wildcardEnd", "return false", "end", "ok := true", "advance := path", "token := \"\"", "for i := 0; i < len(m.parts) && ok; i++", "advance, token, ok = pathScanner.Scan(advance)", "if sectionWildcard == m.parts[i]", "continue", "end", "if token != m.parts[i]", "return false", "end", "end", "return true", "end"]
-/-- Match func(path string) bool -/
 def pmSkel_AlwaysMatch : List String := ["return true", "end"]
-/-- partCount func(s string) int -/
 def pmSkel_partCount : List String := ["n := 0", "for", "i := strings.IndexByte(s, '/')", "if i == -1", "return n", "end", "n++", "s = s[i+1:]", "end", "end"]
-/-- initMatchers func(access string, destMatcher *[]PathMatcher) -/
 def pmSkel_initMatchers : List String := ["advance := access", "pathMask := \"\"", "continueScan := true", "for continueScan", "advance, pathMask, continueScan = scan.Semicolon.Scan(advance)", "if len(pathMask) == 0", "continue", "end", "*destMatcher = append(*destMatcher, NewPathMatcher(pathMask))", "end", "end"]
-/-- init func() error -/
 def pmSkel_userInit : List String := ["u.Name = strings.ToLower(u.Name)", "if u.Admin", "if len(u.PullAccess) == 0", "u.PullAccess = \"*\"", "end", "if len(u.PushAccess) == 0", "u.PushAccess = \"*\"", "end", "end", "u.pushMatchers = nil", "u.pullMatchers = nil", "initMatchers(u.PushAccess, &u.pushMatchers)", "initMatchers(u.PullAccess, &u.pullMatchers)", "return nil", "end"]
-/-- ValidatePermission func(path string, right AccessRight) bool -/
 def pmSkel_ValidatePermission : List String := ["var matchers []PathMatcher", "switch right", "case PushRight", "matchers = u.pushMatchers", "end", "case PullRight", "matchers = u.pullMatchers", "end", "end", "if matchers == nil", "return false", "end", "path = strings.TrimSpace(path)", "range _, matcher := matchers", "if matcher.Match(path)", "return true", "end", "end", "return false", "end"]
-/-- CopyFrom func(src *User, withPassword bool) -/
 def pmSkel_CopyFrom : List String := ["if withPassword", "u.Password = src.Password", "end", "u.Admin = src.Admin", "u.PushAccess = src.PushAccess", "u.PullAccess = src.PullAccess", "u.init()", "end"]
-/-- Scan func(str string) (advance, token string, continueScan bool) -/
 def pmSkel_Scan : List String := ["i := strings.IndexRune(str, s.delim)", "if i < 0", "return \"\", strings.TrimFunc(str, s.trimFunc), false", "end", "return strings.TrimFunc(str[i+s.delimLen:], s.trimFunc), strings.TrimFunc(str[:i], s.trimFunc), true", "end"]
-/-- NewScanner func(delim rune, trimFunc func(r rune) bool) Scanner -/
 def pmSkel_NewScanner : List String := ["scanner := Scanner{ delim: delim, trimFunc: trimFunc, }", "scanner.delimLen = utf8.RuneLen(delim)", "if trimFunc == nil", "scanner.trimFunc = func(r rune) bool { return false }", "end", "return scanner", "end"]
 def accessRights : String := "PullRight AccessRight = 1 << iota;PushRight;"
-/-- facts the translator could not recognise in the source (obligations over them fail) -/
-def authFactsUnknown : List String := []
-end IpcHub.Gen
+end IpcHub.PathMatch.Expected
